@@ -111,10 +111,15 @@ CLAIMED = {
              'stored, unforced result is loaded with the run log, every other task object and every existing file unchanged '
              '(only the task directory is created); a successful request leaves the value in memory so the run executes at '
              'most once per task object; the run log is only appended; builds, has_data, flags, forcing without recompute, '
-             'restarts run nothing. Correspondence: force-free histories with restarts and mixed histories; oracle: no '
-             'location runs twice, a stored result runs nothing, runs of a request are upstream of it, inspection runs nothing.',
-        note='at-most-once per storage LOCATION across objects and processes is checked by the oracle and follows from '
-             'load-if-stored; it is not yet stated as a single history theorem (needs an acyclicity hypothesis on locations)',
+             'restarts run nothing; and over a whole history (requests on arbitrary objects in any order, restarts in between, '
+             'any initial content of the data directory, nothing forced, no failure) the run of a persisted task executes at '
+             'most once per storage location and a computed location is stored - by an invariant with the set of runs in '
+             'progress and a level function along inputs. Correspondence: force-free histories with restarts and mixed '
+             'histories (run arguments included); oracle: no location runs twice, a stored result runs nothing, runs of a '
+             'request are upstream of it, inspection runs nothing; every persisting data class incl. empty results at most once.',
+        note='the history theorem is for a fixed table of task objects (all chains built before the requests) and for JSON-like '
+             'one-shot results; its hypotheses (inputs strictly lower, one location one data class, log/record files are no '
+             'result files) are stated, shown satisfiable by an Example, and not derived from construction',
         technique='Coq proof (case analysis of the fuelled evaluator, fold invariants) + differential histories via vm_compute',
         ref='DESIGN.md section 5, C04'),
     'C07': dict(
